@@ -71,6 +71,14 @@ def check(run):
                     run.violation("copy-loses-data-or-metadata", site, {**inp, "key": k}, "extra metadata preserved", "missing or different")
             if np.shares_memory(c, obj):
                 run.violation("copy-shares-data", site, inp, "independent data", "shares memory")
+            if (rname == "copy.deepcopy" or rname.startswith("pickle")) and isinstance(obj._metadata.get("note"), list):
+                # deep routes: nested mutable metadata values are copies too
+                c._metadata["note"].append("changed-on-copy")
+                if "changed-on-copy" in obj._metadata["note"]:
+                    run.violation("deep-copy-shares-nested-metadata", site, inp, "changing nested metadata of the copy does not affect the original", "original changed")
+                    obj._metadata["note"].remove("changed-on-copy")
+                else:
+                    c._metadata["note"].remove("changed-on-copy")
             if c._metadata is obj._metadata:
                 run.violation("copy-shares-metadata", site, inp, "independent metadata dict", "same dict")
             # mutate the copy (data + metadata), original must be unaffected; then mutate original, copy unaffected
